@@ -30,6 +30,7 @@ struct TimeGhostImpl : TimeGhost {
   bool daemon_ready = false; int64_t daemon_since_idle = 0; bool exiting = false; bool clean_exit_pending = false; bool last_exit_clean = false;
   int64_t pause_until = 0; bool progress_since_select = true; int idle_wakeups = 0; int zero_selects = 0; int max_zero_selects = 0; int alrm_countdown = 0;
   bool alrm_obligation = false; int64_t alrm_t = 0; std::set<std::pair<uint64_t, int>> alrm_waiting;
+  bool spawner_lost = false;
   int pass_owner_fd[2] = {-1, -1}; uint64_t pass_owner_n[2] = {0, 0};
   int jobs_in_use() { int j = 0; for (auto &p : mt) for (int c = 0; c < 2; c++) if (p.second.c[c].exists && (p.second.c[c].in_pass || p.second.c[c].outstanding > 0)) j++; return j; }
   int numjobs() { return std::min(w->conc[0], w->spawn_limit[0]) + std::min(w->conc[1], w->spawn_limit[1]); }
@@ -92,8 +93,16 @@ struct TimeGhostImpl : TimeGhost {
         if (e.a == SIGALRM) { alrm_countdown = 2; alrm_obligation = true; alrm_t = k->clock; alrm_waiting.clear();
           for (auto &pr : mt) for (int c = 0; c < 2; c++) { ChanState &cs = pr.second.c[c]; if (cs.waiting()) { cs.early_ok = true; alrm_waiting.insert({pr.first, c}); } } }
         break;
+      case C_READ:
+        // end of file on a spawner's report pipe: the spawner is gone. The daemon says so, starts nothing new and exits once the other
+        // channel has reported; deliveries handed to the lost spawner are never reported, their passes never end, and nothing about
+        // them is persisted - after the restart they are simply due as before
+        if (e.ret == 0 && e.pipe && (e.fd == 2 || e.fd == 4)) { exiting = true; spawner_lost = true; k->probe("spawner_lost_seen_by_daemon"); }
+        break;
       case C_EXIT:
         daemon_ready = false; last_exit_clean = (e.a == 0);
+        for (auto &pr : mt) for (int c = 0; c < 2; c++) { ChanState &cs = pr.second.c[c]; if (cs.outstanding > 0 || (spawner_lost && cs.in_pass)) { cs.early_ok = true; cs.due_known = false; cs.expired_pass_done = false; if (spawner_lost) cs.in_pass = false; } }
+        spawner_lost = false;
         if (last_exit_clean) for (auto &pr : mt) for (int c = 0; c < 2; c++) { ChanState &cs = pr.second.c[c]; if (cs.in_pass) { cs.term_interrupted = true; cs.lost_due = cs.due; cs.due_known = false; k->probe("term_during_open_pass"); } }
         break;
       case C_OPEN: {
